@@ -1,8 +1,10 @@
 import Driver.Proto
+import Driver.C07
 import Driver.C08
 import Driver.C09
 
 def suites : List (String × Driver.Suite) :=
+  Driver.C07.suites ++
   Driver.C08.suites ++
   Driver.C09.suites
 
